@@ -243,11 +243,9 @@ func (r *Router) Group(prefix string, register func(), middles ...HandlerFunc) {
 	prevHandlers := r.currentGroupHandlers
 	if len(middles) > 0 {
 		// in multi level group routes.
-		if len(prevHandlers) > 0 {
-			r.currentGroupHandlers = append(r.currentGroupHandlers, middles...)
-		} else {
-			r.currentGroupHandlers = middles
-		}
+		// Notice: always build an own list. The given slice belongs to the caller: Use() in the group
+		// appends to the list and must not write into the spare capacity of the caller's slice.
+		r.currentGroupHandlers = combineHandlers(prevHandlers, middles)
 	}
 
 	// call register
